@@ -83,7 +83,10 @@ impl<F: Float> Transformer<Array2<F>, Array2<F>> for NormScaler {
         Zip::from(x.rows_mut())
             .and(&norms)
             .for_each(|mut row, &norm| {
-                row.mapv_inplace(|el| el / norm);
+                // an all-zero sample has zero norm: leave it unchanged instead of dividing by zero
+                if norm > F::zero() {
+                    row.mapv_inplace(|el| el / norm);
+                }
             });
         x
     }
